@@ -558,6 +558,17 @@ func ruleENTRYTAIL(c *Ctx, r *Report) {
 			ev := c.resolve(p.Ret.Results[n-1], p.Env)
 			ex, isEx := ev.(*ssa.Extract)
 			if !isEx {
+				// Parse's error handed on in another wrapping: still a failure exactly when Parse fails
+				parseFailed := false
+				for _, a := range p.Atoms {
+					if a.Kind == "nil" && !a.Pos && strings.HasSuffix(a.Subj, "#1") && strings.HasPrefix(a.Subj, fnName(parse)+"(") {
+						parseFailed = true
+					}
+				}
+				if parseFailed && neverNil(ev) {
+					r.ok(rule, t.name+"|parse-error-wrapped", c.instrPos(p.Ret), "a fresh error returned under Parse's err != nil")
+					continue
+				}
 				r.bad(rule, t.name+"|own-return|"+c.key(ev, p.Env), c.instrPos(p.Ret), fmt.Sprintf("%s has a return of its own (error %s) that is neither Parse's error nor the renderer's result: this entry point rejects (or accepts) queries the other one does not", t.name, c.key(ev, p.Env)))
 				continue
 			}
